@@ -17,6 +17,11 @@ func c01Symbol(f *Fixture, k int, idx int) Sym {
 	}
 	switch k {
 	case 0:
+		// any client value sharing a bit with the server's mechanisms is a valid handshake
+		if f.M.ServerCaps == 3 {
+			c := []uint16{3, 1, 2, 0x8001, 7}[idx%5]
+			return Sym{Kind: "HS", Caps: c, Wire: HandshakeReq(1, 0, 0, c)}
+		}
 		return f.SymHS(true)
 	case 1:
 		return f.SymTC("good", f.H1.Addr())
@@ -114,7 +119,7 @@ func c01Cases(l *Lab) []c01Case {
 
 func CheckC01(l *Lab, verifDir string) int {
 	rep := NewReport("C01", l.Tier, l.Seed, "exploration", verifDir)
-	rep.Rule = "tunnel histories over a 13-symbol alphabet {HS, TC(good/bad/none), TA, CC(allowed/denied/unreachable), DATA, KEEPALIVE, CLOSE, UNKNOWN(type), MALFORMED(body)}: every sequence up to length 3 (thorough 4), the single-deviation closure of the valid session (8 prefixes x 13 x 13) and PRNG histories of length 5-12, each on both transports and in two gateway configurations (openid+token auth, ntlm without token auth), executed in lock step against the real binary and checked against the reference automaton M (responses, end of tunnel, dial events, backend accepts, relayed bytes). non-trivial = at least one packet was processed by the gateway; distinct = transport x configuration x abstract history x observed response sequence"
+	rep.Rule = "tunnel histories over a 13-symbol alphabet {HS, TC(good/bad/none), TA, CC(allowed/denied/unreachable), DATA, KEEPALIVE, CLOSE, UNKNOWN(type), MALFORMED(body)}: every sequence up to length 3 (thorough 4), the single-deviation closure of the valid session (8 prefixes x 13 x 13) and PRNG histories of length 5-12, each on both transports and in three gateway configurations (openid+token auth, ntlm without token auth, openid+token auth+smart card with every matching client capability value; the third runs the deviation closure and the PRNG histories), executed in lock step against the real binary and checked against the reference automaton M (responses, end of tunnel, dial events, backend accepts, relayed bytes). non-trivial = at least one packet was processed by the gateway; distinct = transport x configuration x abstract history x observed response sequence"
 	rep.Assume("legacy: the bytes following the OUT header block in the same flush are the seed; the legacy IN handler discards its first raw read (driver waits for hook event legacy.drained)")
 	rep.Assume("ntlm configuration uses a table-driven stand-in for rdpgw-auth; openid uses the fake IdP with sub == preferred_username")
 	race := !l.Quick()
@@ -124,11 +129,11 @@ func CheckC01(l *Lab, verifDir string) int {
 		c         c01Case
 		transport string
 	}
-	for _, kind := range []string{"openid", "ntlm"} {
+	for _, kind := range []string{"openid", "ntlm", "openid+smartcard"} {
 		jobs := make(chan job, 64)
 		var wg sync.WaitGroup
 		var idp *IdP
-		if kind == "openid" {
+		if strings.HasPrefix(kind, "openid") {
 			var err error
 			idp, err = NewIdP()
 			if err != nil {
@@ -140,7 +145,15 @@ func CheckC01(l *Lab, verifDir string) int {
 			wg.Add(1)
 			go func(w int) {
 				defer wg.Done()
-				f, err := l.NewFixture(FixtureOpts{Kind: kind, Race: race, IdP: idp})
+				fo := FixtureOpts{Kind: kind, Race: race, IdP: idp}
+				if kind == "openid+smartcard" {
+					fo.Kind = "openid"
+					fo.Mutate = func(c *GWConfig) { c.SmartCardAuth = true }
+				}
+				f, err := l.NewFixture(fo)
+				if err == nil && kind == "openid+smartcard" {
+					f.M.ServerCaps = 3
+				}
 				if err != nil {
 					rep.Inconclusive("fixture: " + err.Error())
 					for range jobs {
@@ -155,6 +168,9 @@ func CheckC01(l *Lab, verifDir string) int {
 			}(w)
 		}
 		for _, c := range cases {
+			if kind == "openid+smartcard" && c.cls != "deviation" && c.cls != "prng" {
+				continue // the third configuration runs the deviation closure and the PRNG histories
+			}
 			for _, tr := range Transports() {
 				jobs <- job{c, tr}
 			}
@@ -201,7 +217,7 @@ func c01RunOne(rep *Report, f *Fixture, c c01Case, transport string) {
 	}
 	key := ""
 	if res.Steps > 0 || len(res.Observed) > 0 {
-		key = HashStr(transport, f.Kind, strings.Join(abs, " "), strings.Join(res.Observed, " "), res.End != "not-ended")
+		key = HashStr(transport, f.Kind, f.M.ServerCaps, strings.Join(abs, " "), strings.Join(res.Observed, " "), res.End != "not-ended")
 	}
 	if res.Inconclusive != "" {
 		rep.Inconclusive(fmt.Sprintf("%s/%s %v: %s", f.Kind, transport, res.History, res.Inconclusive))
